@@ -15,6 +15,7 @@ from gambatools.dfa import State, Symbol, print_state_set, DFA
 from gambatools.dfa_io import draw_dfa
 from gambatools.nfa import NFA
 from gambatools.logging import log
+from gambatools import _verif
 
 
 def set_element(S: Set[Any]) -> Any:
@@ -104,6 +105,7 @@ def dfa_minimize(D: DFA) -> DFA:
     F = D.F
     q = list(Q)
     n = len(q)
+    if _verif.ON: _verif.emit('tf.order', order=list(q))
 
     table: MutableMapping[Tuple[int, int], bool] = {}
     for i, j in itertools.combinations_with_replacement(range(n), 2):
@@ -284,6 +286,7 @@ def dfa_isomorphic1(D1: DFA, D2: DFA) -> bool:
     while len(todo) > 0:
         (q1, q2) = set_element(todo)
         todo.remove((q1, q2))
+        if _verif.ON: _verif.emit('iso.pick', q1=q1, q2=q2)
         if (q1 in F1) != (q2 in F2):
             return False
         if matching.get(q1, q2) != q2 or matching_inv.get(q2, q1) != q1:
@@ -648,8 +651,11 @@ def dfa_hopfcroft(D: DFA) -> DFA:
     log(f'W_cal initial = {print_W(W_cal)}')
     log('-------------------------------------')
 
+    if _verif.ON: _verif.emit('hop.start', P=[sorted(B) for B in P_cal], W=[[sorted(B), b] for (B, b) in W_cal])
     while len(W_cal) > 0:
+        if _verif.ON: _verif.emit('hop.state', P=[sorted(B) for B in P_cal], W=[[sorted(B), b] for (B, b) in W_cal])
         (W, a) = W_cal.pop()
+        if _verif.ON: _verif.emit('hop.pop', W=sorted(W), a=a)
         log(f'(W, a) = {print_Q_a(W, a)}')
         P_cal_copy = P_cal.copy()
         for P in P_cal_copy:
@@ -671,6 +677,7 @@ def dfa_hopfcroft(D: DFA) -> DFA:
                 else:
                     W_cal |= {(min_(P1, P2), b)}
 
+    if _verif.ON: _verif.emit('hop.end', P=[sorted(B) for B in P_cal])
     log(f'P_cal final = {print_P(P_cal)}')
     log(f'W_cal final = {print_W(W_cal)}')
 
